@@ -92,7 +92,13 @@ where
         &self,
         symbol: impl Borrow<Self::Symbol>,
     ) -> Option<(Self::Probability, <Self::Probability as BitArray>::NonZero)> {
-        let symbol = symbol.borrow().as_();
+        let symbol = *symbol.borrow();
+        // Decide on the wide `usize` value: narrowing a far out-of-range symbol to
+        // `Probability` first could alias it with a symbol inside the support.
+        if symbol > self.last_symbol.to_usize().unwrap_or(usize::MAX) {
+            return None;
+        }
+        let symbol = symbol.as_();
         let left_cumulative = symbol.wrapping_mul(&self.probability_per_bin.get());
 
         #[allow(clippy::comparison_chain)]
